@@ -1295,7 +1295,7 @@ def bounds(tier):
         "A5_unrooted": {"n": 5, "pool": "one drawing per unrooted topology (26)", "k_max": 3, "lens": "pos", "profile": "lean",
                         "also": None if q else "every pair of the 236 drawings"},
         "A5_rooted_triples": None if q else {"n": 5, "pool": "binary (105)", "k": 3, "profile": "lean"},
-        "B_weights": {"n": [3, 4], "k_max": 3, "weight_alphabets": [[1, 2], [0.5, 3]], "use_tree_weights": [True, False],
+        "B_weights": {"n": [3, 4], "k_max": 3, "weight_alphabets": [[1, 2], [0.5, 3]], "zero_weight_vectors": "{0,1}^k with a 0 and a 1, use_tree_weights=True, frequency tables", "use_tree_weights": [True, False],
                       "rootings": [True, False], "lens": "none",
                       "profile": ("use_tree_weights=True: lean (every threshold); False: flagoff (frequency tables, consensus at "
                                   "default and lowest threshold)" if not q else
@@ -1461,6 +1461,11 @@ def run_chunk(chunk, ctx):
                             continue
                         check_collection({"n": n, "rooted": chunk["rooted"], "ns": "exact", "shapes": ms, "weights": wv,
                                           "utw": utw, "lens": "none", "profile": prof}, ctx)
+                # a tree of weight exactly 0 next to positive weights: it counts for nothing (frequency tables only)
+                for wv in itertools.product((0, 1), repeat=k):
+                    if 0 in wv and any(wv):
+                        check_collection({"n": n, "rooted": chunk["rooted"], "ns": "exact", "shapes": ms, "weights": list(wv),
+                                          "utw": True, "lens": "none", "profile": "freq"}, ctx)
             elif layer == "C":
                 check_collection({"n": n, "rooted": True, "ns": "exact", "shapes": ms, "weights": None, "utw": True,
                                   "lens": "ultra", "profile": "ages"}, ctx)
